@@ -273,6 +273,19 @@ def corpus():
             empty = raw[:en - n - 1] + b"\x40" + raw[en:]
             for t in (longer, shorter, empty):
                 out.append(line(["MK " + _reg(t, None, False), "FROM 0", "DROP 0"]))
+    # a valid bundle in non-canonical but legal CBOR (payload as a chunked, indefinite-length byte string), decoded TWICE from the same
+    # caller buffer: decoding must not write to the caller's memory, so the second decode gives the same bundle
+    cb = dict(p=dict(ver=7, flags=0, crc=("N",), dst=("DTN", 1, b"//d/x"), src=("DTN", 1, b"//s/y"), rpt=("NONE", 1, 0), t=5, seq=0, life=1000,
+                     foff=0, flen=0), cs=[dict(type=1, num=1, flags=0, crc=("N",), data=("DATA", b"ABC"))])
+    canon = genb.ref_bundle(cb)[0]
+    assert canon.endswith(bytes.fromhex("850101000043414243ff"))
+    chunked = canon[:-5] + bytes.fromhex("5f42414241 43ff".replace(" ", "")) + b"\xff"
+    h = _reg(chunked, cb, True)
+    out.append(line(["MK " + h, "FROM 0", "FROM 0", "PAYLOAD 1", "PAYLOAD 2", "VALID 2", "TOCBOR 2", "BFREE 3", "BFREE 4", "BFREE 5", "BNDFREE 1", "BNDFREE 2", "DROP 0"]))
+    # many bundles alive at the same time (beyond any small fixed table of live objects), all released afterwards
+    h = buf_valid(rng, nblocks=1, crc_kind=0)
+    for n in (65, 70, 130, 260):
+        out.append(line(["MK " + h] + ["FROM 0"] * n + ["BNDFREE %d" % k for k in range(n, 0, -1)] + ["DROP 0"]))
     # invalid bundles -> NULL
     for _ in range(6):
         out.append(line(["MK " + buf_invalid(rng), "FROM 0", "DROP 0"]))
